@@ -157,7 +157,7 @@ mutant('C03', 'self pairs allowed', NL, 'if uindex != vindex:', 'if True:', 'MEM
 mutant('C03', 'flags swapped into dmag2_c', NL, 'dmag2_c(upos, vpos, vects, pbc_a, pbc_b, pbc_c)', 'dmag2_c(upos, vpos, vects, pbc_b, pbc_a, pbc_c)', 'MEMBERSHIP')
 mutant('C03', 'dmag2 kernel transposed c vector', 'atomman/core/dmag.pyx', 'z * bvects[2,j]', 'z * bvects[j,2]', 'MINFOLD')
 mutant('C03', 'getitem ignores coord', NLP, 'return self.__neighbors[key, :self.coord[key]]', 'return self.__neighbors[key]', 'NEIGHBORLIST')
-mutant('C03', 'coord from wrong column', NLP, "deltasize=deltasize)\n        self.__coord = self.__nlist[:, 0]", "deltasize=deltasize)\n        self.__coord = self.__nlist[:, 1]", 'NEIGHBORLIST')
+mutant('C03', 'coord from wrong column', NLP, "        self.__coord = self.__nlist[:, 0]", "        self.__coord = self.__nlist[:, 1]", 'NEIGHBORLIST')
 mutant('C03', 'load count off by one', NLP, 'self.__coord[i] = len(terms) - 1', 'self.__coord[i] = len(terms)', 'NEIGHBORLIST')
 benign('C03', 'padding a bit larger', NL, 'supermin[j] -= 1.01 * cutoff', 'supermin[j] -= 1.05 * cutoff')
 benign('C03', 'cutoff test flipped', NL, 'if dmag2[w] < cutoff2:', 'if cutoff2 > dmag2[w]:')
@@ -369,7 +369,7 @@ mutant('C11', 'Sijkl getter divides rows only', ECF, "        s[:,3:] = s[:,3:]/
 mutant('C11', 'Sijkl setter weight 2 for shear-shear', ECF, "4.*s[1,2,1,2]", "2.*s[1,2,1,2]", 'COMPLIANCE')
 mutant('C11', 'transform uses transposed T on one side', ECF, "Q = np.einsum('km,ln->mnkl', T, T)", "Q = np.einsum('mk,ln->mnkl', T, T)", 'TRANSFORM')
 mutant('C11', 'transform cleanup drops abs', ECF, "C[abs(C / C.max()) < tol] = 0.0", "C[C / C.max() < tol] = 0.0", 'CLEANUP')
-mutant('C11', 'hexagonal C66 from C11+C12', ECF, "                c11 = kwargs.pop('C11')\n                c12 = kwargs.pop('C12')\n                c66 = (c11 - c12) / 2\n                # Check if redundant C66 is given\n                if 'C66' in kwargs:\n                    assert np.isclose(c66, kwargs['C66'])\n                    c66 = kwargs.pop('C66')\n            elif 'C11' in kwargs and 'C66' in kwargs:\n                c11 = kwargs.pop('C11')\n                c66 = kwargs.pop('C66')\n                c12 = c11 - 2 * c66\n            elif 'C12' in kwargs and 'C66' in kwargs:\n                c12 = kwargs.pop('C12')\n                c66 = kwargs.pop('C66')\n                c11 = 2 * c66 + c12\n            else:\n                assert False\n        except:\n            raise TypeError('hexagonal", "                c11 = kwargs.pop('C11')\n                c12 = kwargs.pop('C12')\n                c66 = (c11 + c12) / 2\n                # Check if redundant C66 is given\n                if 'C66' in kwargs:\n                    assert np.isclose(c66, kwargs['C66'])\n                    c66 = kwargs.pop('C66')\n            elif 'C11' in kwargs and 'C66' in kwargs:\n                c11 = kwargs.pop('C11')\n                c66 = kwargs.pop('C66')\n                c12 = c11 - 2 * c66\n            elif 'C12' in kwargs and 'C66' in kwargs:\n                c12 = kwargs.pop('C12')\n                c66 = kwargs.pop('C66')\n                c11 = 2 * c66 + c12\n            else:\n                assert False\n        except:\n            raise TypeError('hexagonal", 'CRYSTAL')
+mutant('C11', 'hexagonal C66 from C11+C12', ECF, "                c66 = (c11 - c12) / 2", "                c66 = (c11 + c12) / 2", 'CRYSTAL')
 mutant('C11', 'rhombohedral sign of c14 in row 2', ECF, "[c12, c11, c13,-c14,-c15, 0.0],", "[c12, c11, c13, c14,-c15, 0.0],", 'CRYSTAL')
 mutant('C11', 'rhombohedral C56 entry', ECF, "[c15,-c15, 0.0, 0.0, c44, c14],", "[c15,-c15, 0.0, 0.0, c44,-c14],", 'CRYSTAL')
 mutant('C11', 'tetragonal C26 sign', ECF, "[c12, c11, c13, 0.0, 0.0,-c16],", "[c12, c11, c13, 0.0, 0.0, c16],", 'CRYSTAL')
@@ -379,9 +379,9 @@ mutant('C11', 'isotropic (C12,E) root sign', ECF, "c44 = (E - 3 * c12 + R) / 4",
 mutant('C11', 'isotropic (E,K) arm', ECF, "c44 = 3 * K * E / (9 * K - E)", "c44 = 3 * K * E / (9 * K + E)", 'ISOTROPIC')
 mutant('C11', 'isotropic (C44,K) arm', ECF, "c12 = K - 2 * c44 / 3", "c12 = K - 2 * c44", 'ISOTROPIC')
 mutant('C11', 'normalized rhombohedral C15 sign', ECF, "c_dict['C15'] = (c[0,4] - c[1,4] - c[3,5]) / 3", "c_dict['C15'] = (c[0,4] - c[1,4] + c[3,5]) / 3", 'NORMALIZED')
-mutant('C11', 'normalized hexagonal C12', ECF, "c_dict['C12'] = (c[0,1] + (c[0,0] - 2 * c[5,5])) / 2\n            c_dict['C13'] = (c[0,2] + c[1,2]) / 2\n            c_dict['C44'] = (c[3,3] + c[4,4]) / 2\n        \n        elif crystal_system == 'tetragonal':", "c_dict['C12'] = (c[0,1] + (c[0,0] - c[5,5])) / 2\n            c_dict['C13'] = (c[0,2] + c[1,2]) / 2\n            c_dict['C44'] = (c[3,3] + c[4,4]) / 2\n        \n        elif crystal_system == 'tetragonal':", 'NORMALIZED')
-mutant('C11', 'Reuss shear coefficient', ECF, "return 15 / (4 * (s[0,0]", "return 15 / (3 * (s[0,0]", 'MODULI')
-mutant('C11', 'Voigt bulk divisor', ECF, "+ 2 * (c[0,1] + c[1,2] + c[0,2])) / 9", "+ 2 * (c[0,1] + c[1,2] + c[0,2])) / 6", 'MODULI')
+mutant('C11', 'normalized hexagonal C12', ECF, "c_dict['C12'] = (c[0,1] + (c[0,0] - 2*c[5,5])) / 2\n                c_dict['C13'] = (c[0,2] + c[1,2]) / 2\n                c_dict['C44']", "c_dict['C12'] = (c[0,1] + (c[0,0] - c[5,5])) / 2\n                c_dict['C13'] = (c[0,2] + c[1,2]) / 2\n                c_dict['C44']", 'NORMALIZED')
+mutant('C11', 'Reuss shear coefficient', ECF, "return 15 / ( 4*(s[0,0]", "return 15 / ( 3*(s[0,0]", 'MODULI')
+mutant('C11', 'Voigt bulk divisor', ECF, "+ 2*(c[0,1] + c[1,2] + c[0,2]) ) / 9", "+ 2*(c[0,1] + c[1,2] + c[0,2]) ) / 6", 'MODULI')
 benign('C11', 'hexagonal c66 as half difference', ECF, "c12 = c11 - 2 * c66", "c12 = c11 - c66 - c66")
 benign('C11', 'transform einsum with renamed indices', ECF, "C = np.einsum('ghij,ghmn,mnkl->ijkl', Q, self.Cijkl, Q)", "C = np.einsum('abij,abcd,cdkl->ijkl', Q, self.Cijkl, Q)")
 benign('C11', 'isotropic (C11,K) rewritten', ECF, "c44 = 3 * (c11 - K) / 4", "c44 = 0.75 * (c11 - K)")
@@ -416,7 +416,7 @@ mutant('C10', 'uc.model memory-order flatten', UC, "datamodel['value'] = value.f
 mutant('C10', 'uc.model drops unit', UC, "    if units is not None:\n        datamodel['unit'] = units\n", "", 'UC-MODEL')
 mutant('C10', 'value_unit ignores shape', UC, "    if 'shape' in term:\n        shape = tuple(term['shape'])\n        value = value.reshape(shape)\n    \n    return value", "    return value", 'UC-MODEL')
 mutant('C10', 'Box.model reads bvect twice', BOXF, "cvect = uc.value_unit(model['cvect'])", "cvect = uc.value_unit(model['bvect'])", 'BOX-MODEL')
-mutant('C10', 'Box.model origin without unit', BOXF, "model['box']['origin'] = uc.model(self.origin, length_unit)", "model['box']['origin'] = uc.model(self.origin)", 'BOX-MODEL')
+mutant('C10', 'Box.model origin without unit', BOXF, "model['box']['origin']= uc.model(self.origin, length_unit)", "model['box']['origin']= uc.model(self.origin)", 'BOX-MODEL')
 mutant('C10', 'Box.model read bypasses setter', BOXF, "            self.set(avect=avect, bvect=bvect, cvect=cvect, origin=origin)", "            self.__vects[:] = [avect, bvect, cvect]\n            self.__origin[:] = origin", 'BOX-MODEL')
 mutant('C10', 'masses written only if all set', SYSF, "            if mass is not None:\n                addmasses = True\n                break", "            if mass is None:\n                addmasses = False\n                break\n            addmasses = True", 'SYSTEM-MODEL')
 mutant('C10', 'scaled read not converted back', SYSF, "                if prop['data'].get('unit', None) == 'scaled':\n                    self.atoms.view[prop['name']] = self.box.position_relative_to_cartesian(self.atoms.view[prop['name']]) ", "                pass", 'SYSTEM-MODEL')
@@ -430,14 +430,14 @@ benign('C10', 'masses flag via any()', SYSF, "        addmasses = False\n       
 PTF = 'atomman/defect/point.py'
 mutant('C15', 'regress dumbbell vector as position', PTF, "db_vect = np.dot(db_vect, system.box.vects)", "db_vect = system.box.position_relative_to_cartesian(db_vect)", 'DEFECT-ATOM')
 mutant('C15', 'vacancy old_id overwritten', PTF, "    if 'old_id' not in d_system.atoms_prop():\n        d_system.atoms.old_id = index\n    \n    return d_system\n\ndef interstitial", "    d_system.atoms.old_id = index\n    \n    return d_system\n\ndef interstitial", 'OLD-ID')
-mutant('C15', 'substitutional negative index not normalised', PTF, "        if ptd_id < 0:\n            ptd_id += system.natoms\n        if ptd_id < 0 or ptd_id >= system.natoms:\n            raise ValueError('invalid ptd_id')\n    \n    else:\n        raise ValueError('Either pos or ptd_id required')\n    \n    # Check that new atype is different", "        if ptd_id < -system.natoms or ptd_id >= system.natoms:\n            raise ValueError('invalid ptd_id')\n    \n    else:\n        raise ValueError('Either pos or ptd_id required')\n    \n    # Check that new atype is different", 'OLD-ID')
+mutant('C15', 'substitutional negative index not normalised', PTF, ("        if ptd_id < 0:\n            ptd_id += system.natoms\n        if ptd_id < 0 or ptd_id >= system.natoms:", 1), "        if ptd_id < -system.natoms or ptd_id >= system.natoms:", None)
 mutant('C15', 'interstitial accepts occupied site', PTF, "    if not (len(ptd_id) == 1 and len(ptd_id[0]) == 0):", "    if not (len(ptd_id) == 1 and len(ptd_id[0]) <= 1):", 'SITE')
 mutant('C15', 'interstitial default type 0', PTF, "kwargs.pop('atype', 1)", "kwargs.pop('atype', 0)", 'DEFECT-ATOM')
 mutant('C15', 'interstitial position not set', PTF, "            d_system.atoms.pos[-1] = pos", "            pass", 'DEFECT-ATOM')
 mutant('C15', 'dumbbell both atoms moved same way', PTF, "d_system.atoms.pos[-2] -= db_vect", "d_system.atoms.pos[-2] += db_vect", 'DEFECT-ATOM')
-mutant('C15', 'dumbbell ambiguous site accepted', PTF, "        if len(ptd_id) == 1 and len(ptd_id[0]) == 1:\n            ptd_id = ptd_id[0][0]\n        else:\n            raise ValueError('Unique atom at pos not identified')\n    \n    elif ptd_id is not None:\n        if ptd_id < 0:\n            ptd_id += system.natoms\n        if ptd_id < 0 or ptd_id >= system.natoms:\n            raise ValueError('invalid ptd_id')\n    \n    else:\n        raise ValueError('Either pos or ptd_id required')\n    \n    # Unscale db_vect", "        if len(ptd_id) == 1 and len(ptd_id[0]) >= 1:\n            ptd_id = ptd_id[0][0]\n        else:\n            raise ValueError('Unique atom at pos not identified')\n    \n    elif ptd_id is not None:\n        if ptd_id < 0:\n            ptd_id += system.natoms\n        if ptd_id < 0 or ptd_id >= system.natoms:\n            raise ValueError('invalid ptd_id')\n    \n    else:\n        raise ValueError('Either pos or ptd_id required')\n    \n    # Unscale db_vect", 'SITE')
-mutant('C15', 'substitutional moves atom to front', PTF, "    index.pop(ptd_id)\n    index.append(ptd_id)\n    d_system = System(box=deepcopy(system.box), pbc=deepcopy(system.pbc),\n                      atoms=deepcopy(system.atoms[index]), symbols=system.symbols)\n    \n    # Add property old_id with each atom's original id\n    if 'old_id' not in d_system.atoms_prop():\n        d_system.atoms.old_id = index\n    \n    # Set values for new atom\n    for prop in d_system.atoms_prop():\n        if prop == 'atype':\n            d_system.atoms.atype[-1] = atype", "    index.pop(ptd_id)\n    index.insert(0, ptd_id)\n    d_system = System(box=deepcopy(system.box), pbc=deepcopy(system.pbc),\n                      atoms=deepcopy(system.atoms[index]), symbols=system.symbols)\n    \n    # Add property old_id with each atom's original id\n    if 'old_id' not in d_system.atoms_prop():\n        d_system.atoms.old_id = index\n    \n    # Set values for new atom\n    for prop in d_system.atoms_prop():\n        if prop == 'atype':\n            d_system.atoms.atype[0] = atype", 'COUNT-ORDER')
-mutant('C15', 'vacancy shares atoms with input', PTF, "    d_system = System(box=deepcopy(system.box), pbc=deepcopy(system.pbc),\n                      atoms=deepcopy(system.atoms[index]), symbols=system.symbols)\n    \n    # Add property old_id with each atom's original id\n    if 'old_id' not in d_system.atoms_prop():\n        d_system.atoms.old_id = index\n    \n    return d_system", "    d_system = System(box=system.box, pbc=system.pbc,\n                      atoms=deepcopy(system.atoms[index]), symbols=system.symbols)\n    \n    # Add property old_id with each atom's original id\n    if 'old_id' not in d_system.atoms_prop():\n        d_system.atoms.old_id = index\n    \n    return d_system", 'UNTOUCHED')
+mutant('C15', 'dumbbell ambiguous site accepted', PTF, ("        if len(ptd_id) == 1 and len(ptd_id[0]) == 1:", 2), "        if len(ptd_id) == 1 and len(ptd_id[0]) >= 1:", None)
+mutant('C15', 'substitutional moves atom to front', [(PTF, "    index.pop(ptd_id)\n    index.append(ptd_id)\n    \n", "    index.pop(ptd_id)\n    index.insert(0, ptd_id)\n    \n"), (PTF, "            d_system.atoms.atype[-1] = atype", "            d_system.atoms.atype[0] = atype")], None, None, None)
+mutant('C15', 'vacancy shares atoms with input', PTF, "    d_system = System(box=deepcopy(system.box), pbc=deepcopy(system.pbc),\n                      atoms=deepcopy(system.atoms[index]),", "    d_system = System(box=system.box, pbc=system.pbc,\n                      atoms=deepcopy(system.atoms[index]),", None)
 mutant('C15', 'point() drops scale for interstitial', PTF, "return interstitial(system, pos=pos, scale=scale, atol=atol, **kwargs)", "return interstitial(system, pos=pos, atol=atol, **kwargs)", 'DISPATCH')
 
 # ------------------------------------------------------------------ C12
@@ -513,12 +513,12 @@ mutant('C14', 'periodic copy never appended', FSF, "        coords = np.append(c
 mutant('C14', 'surface wraps before shifting', FSF, "        system.atoms.pos += shift\n        system.wrap()", "        system.wrap()\n        system.atoms.pos += shift", 'FREE-SURFACE')
 mutant('C14', 'surface non-periodic in wrong direction', FSF, "system.pbc[self.cutindex] = False", "system.pbc[self.cutindex - 1] = False", 'FREE-SURFACE')
 mutant('C14', 'vacuum origin moves by full width', FSF, "neworigin = system.box.origin - ovect * vacuumwidth / 2", "neworigin = system.box.origin - ovect * vacuumwidth", 'FREE-SURFACE')
-mutant('C14', 'faultpos_rel forgets origin', SFF, "self.__faultpos_cart = self.system.box.origin[self.cutindex] + self.faultpos_rel * self.system.box.vects[self.cutindex, self.cutindex]", "self.__faultpos_cart = self.faultpos_rel * self.system.box.vects[self.cutindex, self.cutindex]", 'FAULT')
-mutant('C14', 'mask non-strict in one setter', SFF, "        self.__faultpos_cart = value\n        self.__abovefault = self.system.atoms.pos[:, self.cutindex] > self.faultpos_cart", "        self.__faultpos_cart = value\n        self.__abovefault = self.system.atoms.pos[:, self.cutindex] >= self.faultpos_cart", 'FAULT')
-mutant('C14', 'fault moves atoms below', SFF, "sfsystem.atoms.pos[self.abovefault] += faultshift\n        sfsystem.wrap()\n        \n        if minimum_r", "sfsystem.atoms.pos[~self.abovefault] += faultshift\n        sfsystem.wrap()\n        \n        if minimum_r", 'FAULT')
+mutant('C14', 'faultpos_rel forgets origin', SFF, "self.__faultpos_cart = (self.system.box.origin[self.cutindex] \n                              + self.faultpos_rel ", "self.__faultpos_cart = (0.0 \n                              + self.faultpos_rel ", 'FAULT')
+mutant('C14', 'mask non-strict in one setter', SFF, "self.__abovefault = self.system.atoms.pos[:, self.cutindex] > (self.faultpos_cart)", "self.__abovefault = self.system.atoms.pos[:, self.cutindex] >= (self.faultpos_cart)", 'FAULT')
+mutant('C14', 'fault moves atoms below', SFF, "        sfsystem.atoms.pos[self.abovefault] += faultshift", "        sfsystem.atoms.pos[~self.abovefault] += faultshift", 'FAULT')
 mutant('C14', 'fault edits the stored system', SFF, "sfsystem = deepcopy(self.system)", "sfsystem = self.system", 'FAULT')
 mutant('C14', 'a2 fraction applied to a1 vector', SFF, "faultshift = a1 * self.a1vect_cart + a2 * self.a2vect_cart + outofplane * ovect", "faultshift = a1 * self.a1vect_cart + a2 * self.a1vect_cart + outofplane * ovect", 'FAULT')
-mutant('C14', 'a2 setter accepts out-of-plane vector', SFF, "        if not np.isclose(cart[self.cutindex], 0.0):\n            raise ValueError(f\"shift vector {value} not in fault plane {self.hkl}\")\n        \n        self.__a2vect_uvw = value", "        self.__a2vect_uvw = value", 'FAULT')
+mutant('C14', 'a2 setter accepts out-of-plane vector', SFF, ("            raise ValueError(f'shift vector {value} not in fault plane {self.hkl}')", 1), "            pass", 'FAULT')
 
 # ------------------------------------------------------------------ C13
 DIF = 'atomman/defect/Dislocation/__init__.py'
@@ -531,10 +531,10 @@ mutant('C13', 'monopole displacement subtracted', MOF, "disl_system.atoms.pos +=
 mutant('C13', 'monopole displacement ignores centre', MOF, "self.dislsol.displacement(disl_system.atoms.pos - center)", "self.dislsol.displacement(disl_system.atoms.pos)", 'MONOPOLE')
 mutant('C13', 'monopole base system displaced too', MOF, "disl_system = deepcopy(base_system)", "disl_system = base_system", 'MONOPOLE')
 mutant('C13', 'monopole periodic normal to the line', MOF, "disl_system.pbc[self.lineindex] = True", "disl_system.pbc[self.lineindex - 1] = True", 'MONOPOLE')
-mutant('C13', 'monopole asymmetric multipliers', MOF, "sizemults[self.lineindex-1] = (-sizemults[self.lineindex-1] // 2, sizemults[self.lineindex-1] // 2)", "sizemults[self.lineindex-1] = (0, sizemults[self.lineindex-1])", 'MONOPOLE')
+mutant('C13', 'monopole asymmetric multipliers', MOF, "    sizemults[self.lineindex - 1] = (-sizemults[self.lineindex - 1] // 2,\n                                        sizemults[self.lineindex - 1] // 2)", "    sizemults[self.lineindex - 1] = (0, sizemults[self.lineindex - 1])", 'MONOPOLE')
 mutant('C13', 'monopole boundary inside', MOF, "disl_system.atoms.atype[shape.outside(disl_system.atoms.pos)] += base_system.natypes", "disl_system.atoms.atype[shape.inside(disl_system.atoms.pos)] += base_system.natypes", None)
 mutant('C13', 'cylinder normal not perpendicular', MOF, "normal_vect2 = np.array([vect2[1], -vect2[0]])", "normal_vect2 = np.array([vect2[1], vect2[0]])", 'BOUNDARY')
-mutant('C13', 'cylinder radius adds width', MOF, "radius = smallest - width", "radius = smallest + width", 'BOUNDARY')
+mutant('C13', 'cylinder radius adds width', MOF, "radius =  smallest - width", "radius =  smallest + width", 'BOUNDARY')
 mutant('C13', 'box boundary moved outward', MOF, "plane.point -= width * plane.normal", "plane.point += width * plane.normal", 'BOUNDARY')
 mutant('C13', 'array tilt sign', PAF, "    if burgers.dot(m) > 0:\n        newvects[motionindex] -= burgers / 2", "    if burgers.dot(m) > 0:\n        newvects[motionindex] += burgers / 2", 'ARRAY')
 mutant('C13', 'array accepts too many deletions', PAF, "if found != expected:", "if found < expected:", 'ARRAY')
@@ -549,17 +549,17 @@ ADRF = 'atomman/defect/pn_arctan_disregistry.py'
 ADDF = 'atomman/defect/pn_arctan_disldensity.py'
 mutant('C18', 'regress-F13 solve for a stack of positions', GSF, "a123 = np.linalg.solve(coeffs, pos.T).T", "a123 = np.linalg.solve(coeffs[None], pos)", None)
 mutant('C18', 'a12_to_pos swaps vectors', GSF, "return np.outer(a1, a1vect) + np.outer(a2, a2vect)", "return np.outer(a2, a1vect) + np.outer(a1, a2vect)", 'GAMMA-CONV')
-mutant('C18', 'xy_to_a12 x-axis not converted to Cartesian', GSF, "        if a1vect is not None and xvect is None:\n            xvect = np.dot(a1vect, self.box.vects)\n\n        pos = self.xy_to_pos(x, y, xvect=xvect)", "        if a1vect is not None and xvect is None:\n            xvect = np.asarray(a1vect, dtype=float)\n\n        pos = self.xy_to_pos(x, y, xvect=xvect)", 'GAMMA-CONV')
+mutant('C18', 'xy_to_a12 x-axis not converted to Cartesian', GSF, ("            xvect = np.dot(a1vect, self.box.vects)", 1), "            xvect = np.asarray(a1vect, dtype=float)", 'GAMMA-CONV')
 mutant('C18', 'xy_to_pos forgets the inverse', GSF, "        transform = np.linalg.inv(transform)\n", "", 'GAMMA-CONV')
 mutant('C18', 'fit window lower a2 bound from a1 grid', GSF, "a2min = ua2[np.where(np.isclose(ua2, 0.0))[0][0] - 1] - 1e-8", "a2min = ua2[np.where(np.isclose(ua1, 0.0))[0][0] - 1] - 1e-8", 'GAMMA-FIT')
 mutant('C18', 'fit tiling offsets mismatched', GSF, "a2 = np.concatenate([a2-1, a2, a2+1, a2-1, a2, a2+1, a2-1, a2, a2+1])", "a2 = np.concatenate([a2-1, a2-1, a2-1, a2, a2, a2, a2+1, a2+1, a2+1])", 'GAMMA-FIT')
 mutant('C18', 'fit keeps duplicated edge', GSF, "shortdata = self.data[~(np.isclose(self.data.a1, 1.0) | np.isclose(self.data.a2, 1.0))]", "shortdata = self.data[~(np.isclose(self.data.a1, 1.0))]", 'GAMMA-FIT')
-mutant('C18', 'blend weight paired with wrong image', GSF, "+ x * (1 - y) * self.__E_gsf_fit(a1, a2+1)", "+ x * (1 - y) * self.__E_gsf_fit(a1+1, a2)", 'GAMMA-EGSF')
-mutant('C18', 'period reduction one-sided', GSF, "            while np.any(a1 < 0.0):\n                a1[a1 < 0.0] += 1.0\n", "", 'GAMMA-EGSF')
+mutant('C18', 'blend weight paired with wrong image', GSF, "+ x * (1 - y) * self.__E_gsf_fit(a1, a2 + 1)", "+ x * (1 - y) * self.__E_gsf_fit(a1 + 1, a2)", 'GAMMA-EGSF')
+mutant('C18', 'period reduction one-sided', GSF, "            while np.any(a1 < 0.0): \n                a1[a1 < 0.0] += 1.0\n", "", 'GAMMA-EGSF')
 mutant('C18', 'surface energy uses stored profile', PNF, "        δ = disregistry\n        Δx = x[1] - x[0]\n        β = self.beta", "        δ = self.disregistry\n        Δx = x[1] - x[0]\n        β = self.beta", 'PN-TERMS')
 mutant('C18', 'central density abscissa', PNF, "ρ = ((δ[2:] - δ[:-2]).T / (x[2:] - x[:-2])).T", "ρ = ((δ[2:] - δ[:-2]).T / (x[1:-1] - x[:-2])).T", 'PN-TERMS')
 mutant('C18', 'elastic kernel asymmetric', PNF, "- ψ(i, j-1, Δx) - ψ(j, i-1, Δx)", "- ψ(i, j-1, Δx) - ψ(i, j-1, Δx)", 'PN-TERMS')
-mutant('C18', 'elastic prefactor', PNF, "np.inner(ρ[i].dot(Kij), ρ)) / (4 * np.pi)", "np.inner(ρ[i].dot(Kij), ρ)) / (2 * np.pi)", 'PN-TERMS')
+mutant('C18', 'elastic prefactor', PNF, "np.inner(ρ[i].dot(Kij), ρ) ) / (4 * np.pi)", "np.inner(ρ[i].dot(Kij), ρ) ) / (2 * np.pi)", 'PN-TERMS')
 mutant('C18', 'nonlocal neighbour average', PNF, "dd = δ[m:-m] - 0.5 * (δ[2*m:] + δ[:-2*m])", "dd = δ[m:-m] - (δ[2*m:] + δ[:-2*m])", 'PN-TERMS')
 mutant('C18', 'short stress expression sign', PNF, "            τ = -τ\n", "", 'PN-TERMS')
 mutant('C18', 'total energy drops non-local term', PNF, "                + self.nonlocal_energy(x, disregistry)\n", "", 'PN-TOTAL')
@@ -567,3 +567,51 @@ mutant('C18', 'solve varies the end points', PNF, "d13 = np.concatenate([d[1:-1,
 mutant('C18', 'solve writes z into y', PNF, "d[1:-1, 2] = d13[half:]", "d[1:-1, 1] = d13[half:]", 'PN-SOLVE')
 mutant('C18', 'arctan density half-width squared missing', ADDF, "disldensity = np.outer(halfwidth / ((x - center)**2 + halfwidth**2), burgers / np.pi)", "disldensity = np.outer(1 / ((x - center)**2 + halfwidth**2), burgers / np.pi)", 'ARCTAN')
 mutant('C18', 'arctan disregistry centre sign', ADRF, "np.arctan((x - center) / halfwidth)", "np.arctan((x + center) / halfwidth)", 'ARCTAN')
+
+
+# ---- cases added with the round-2 rules: behaviour-preserving rewrites must stay silent, their breaking counterparts must fire
+RUNF = 'atomman/lammps/run.py'
+C2PF = 'atomman/dump/conventional_to_primitive/dump.py'
+benign('C03', 'bin growth copies only the occupied slots (count + 1)', NL, "for l in range(maxatomsperbin + 1):", "for l in range(xyzbins[i, j, k, 0] + 1):")
+mutant('C03', 'bin growth copies one slot too few', NL, "for l in range(maxatomsperbin + 1):", "for l in range(xyzbins[i, j, k, 0]):", 'INSERTION')
+benign('C04', 'ladder: positions computed once, copied per tolerance', SYS, "            search_success = False\n            for atol in tol:\n                \n                spos = system2.atoms_prop('pos', scale=True)\n",
+       "            spos0 = system2.atoms_prop('pos', scale=True)\n            search_success = False\n            for atol in tol:\n                \n                spos = spos0.copy()\n")
+mutant('C04', 'ladder: positions hoisted and rounded in place', SYS, "            search_success = False\n            for atol in tol:\n                \n                spos = system2.atoms_prop('pos', scale=True)\n",
+       "            spos = system2.atoms_prop('pos', scale=True)\n            search_success = False\n            for atol in tol:\n                \n", 'ROTATE')
+benign('C04', 'generic t: t2 tested before t1', C2PF, "        if is_t1:\n            setting = 't1'\n        elif is_t2:\n            setting = 't2'", "        if is_t2:\n            setting = 't2'\n        elif is_t1:\n            setting = 't1'")
+mutant('C04', 'generic t resolves t2 cells to t1', C2PF, "        elif is_t2:\n            setting = 't2'", "        elif is_t2:\n            setting = 't1'", 'CONVERSION')
+benign('C11', 'normalized hexagonal also passes the dependent C66 = (C11 - C12)/2', ECF, "                c_dict['C44'] = (c[3,3] + c[4,4]) / 2\n            \n            elif crystal_system == 'tetragonal':",
+       "                c_dict['C44'] = (c[3,3] + c[4,4]) / 2\n                c_dict['C66'] = (c_dict['C11'] - c_dict['C12']) / 2\n            \n            elif crystal_system == 'tetragonal':")
+mutant('C11', 'normalized hexagonal passes the raw C66', ECF, "                c_dict['C44'] = (c[3,3] + c[4,4]) / 2\n            \n            elif crystal_system == 'tetragonal':",
+       "                c_dict['C44'] = (c[3,3] + c[4,4]) / 2\n                c_dict['C66'] = c[5,5]\n            \n            elif crystal_system == 'tetragonal':", 'NORMALIZED')
+benign('C12', 'axes checked in their own branch', VDF, "                transform = axes\n            if transform is not None:", "                transform = axes_check(axes)\n            if transform is not None:")
+mutant('C12', 'axes taken unchecked', VDF, "            if transform is not None:\n                transform = axes_check(transform)\n            else:", "            if transform is not None and axes is None:\n                transform = axes_check(transform)\n            elif transform is None:", 'FRAME')
+benign('C13', 'blend: positions of the trimmed system through a local name', PAF, "        disp[ii] = linear_displacement(disl_system.atoms.pos[ii] - center, burgers,\n                                       length, m, n)",
+       "        dpos = disl_system.atoms.pos\n        disp[ii] = linear_displacement(dpos[ii] - center, burgers,\n                                       length, m, n)")
+mutant('C13', 'blend: linear field at positions of the untrimmed system', PAF, "        disp[ii] = linear_displacement(disl_system.atoms.pos[ii] - center, burgers,", "        disp[ii] = linear_displacement(pos[ii] - center, burgers,", 'ARRAY')
+mutant('C13', 'array: old_id counts from the kept atoms', PAF, "disl_system.atoms.old_id = np.where(ii)[0]", "disl_system.atoms.old_id = np.arange(disl_system.natoms)", 'ARRAY')
+mutant('C13', 'array: elastic field evaluated without the centre', PAF, "disp = self.dislsol.displacement(disl_system.atoms.pos - center)", "disp = self.dislsol.displacement(disl_system.atoms.pos)", 'ARRAY')
+mutant('C13', 'array: cell stays periodic across the cut', PAF, "    newpbc[cutindex] = False", "    newpbc[motionindex] = False", 'ARRAY')
+mutant('C13', 'monopole: shift index zero ignored', MOF, "    if shift is not None or shiftindex is not None:", "    if shift is not None or shiftindex:", 'MONOPOLE')
+mutant('C13', 'periodicarray: shift index zero ignored', PAF, "    if shift is not None or shiftindex is not None:", "    if shift is not None or shiftindex:", 'ARRAY')
+benign('C13', 'monopole: shift guard spelled with a tuple test', MOF, "    if shift is not None or shiftindex is not None:", "    if not (shift is None and shiftindex is None):")
+mutant('C13', 'shifts: cell height taken as vector length', DIF, "rcellwidth = self.rcell.box.vects[self.cutindex, self.cutindex]", "rcellwidth = np.linalg.norm(self.rcell.box.vects[self.cutindex])", 'SHIFTS')
+mutant('C14', 'free surface: cell height taken as vector length', FSF, "rcellwidth = rcell.box.vects[cutindex, cutindex]", "rcellwidth = np.linalg.norm(rcell.box.vects[cutindex])", 'FREE-SURFACE')
+mutant('C14', 'surface(): default fault position only when unset', SFF, "        else:\n            self.faultpos_rel = 0.5", "        elif self.__faultpos_rel is None:\n            self.faultpos_rel = 0.5", 'FAULT')
+mutant('C14', 'free_surface_basis: conventional box kept', FSBF, "        b_uvw = miller.vector_conventional_to_primitive(b_uvw, setting=conventional_setting)\n        box = primitive_box", "        b_uvw = miller.vector_conventional_to_primitive(b_uvw, setting=conventional_setting)", 'PLANE-TABLE')
+benign('C16', 'gcd along the last axis by its positive index', MIL, "    n = np.gcd.reduce(indices, axis=-1)", "    n = np.gcd.reduce(indices, axis=indices.ndim - 1)")
+mutant('C16', 'gcd over the first three indices only', MIL, "    n = np.gcd.reduce(indices, axis=-1)", "    n = np.gcd.reduce(indices[..., :3], axis=-1)", 'UTIL')
+benign('C17', 'p vectors rotated with dot and the transposed matrix', STF, "            p_vectors = np.inner(p_vectors, axes_check(axes))", "            p_vectors = np.dot(p_vectors, axes_check(axes).T)")
+mutant('C17', 'p vectors rotated with the transposed rotation', STF, "            p_vectors = np.inner(p_vectors, axes_check(axes))", "            p_vectors = np.dot(p_vectors, axes_check(axes))", 'P-VECTORS')
+mutant('C17', 'match_pq takes p as a writable buffer', STF, "cdef match_pq(const double[:,::1] p, ", "cdef match_pq(double[:,::1] p, ", 'READONLY-FLOW')
+benign('C17', 'shared p vectors copied after broadcasting', STF, "            p_vectors = np.broadcast_to(p_vectors, (system.natoms, len(p_vectors[0]), 3))", "            p_vectors = np.array(np.broadcast_to(p_vectors, (system.natoms, len(p_vectors[0]), 3)))")
+mutant('C18', 'delta tiled from the unfiltered table', GSF, "            delta = np.concatenate([shortdata.delta] * 9)", "            delta = np.concatenate([self.data.delta] * 9)", 'GAMMA-FIT')
+benign('C18', 'delta tiled with a comprehension', GSF, "            delta = np.concatenate([shortdata.delta] * 9)", "            delta = np.concatenate([shortdata.delta for _ in range(9)])")
+benign('C19', 'old logs read with a zero-based counter', RUNF, "    for i in range(1, lognum+1):\n        log.read(f'{logname}-{i}{logext}')", "    for i in range(lognum):\n        log.read(f'{logname}-{i + 1}{logext}')")
+mutant('C19', 'newest old log not read back', RUNF, "    for i in range(1, lognum+1):", "    for i in range(1, lognum):", 'RESTART')
+mutant('C19', 'old log renamed over the newest one', RUNF, "            lognum = maxlogid + 1", "            lognum = max(maxlogid, 1)", 'RESTART')
+benign('C20', 'euler on a private copy, advanced in place', EU, "    return coord + timestep * ratefxn(coord, **kwargs)", "    coord = np.array(coord, dtype=float)\n    coord += timestep * ratefxn(coord, **kwargs)\n    return coord")
+mutant('C20', 'euler advances the caller array in place', EU, "    return coord + timestep * ratefxn(coord, **kwargs)", "    coord = np.asarray(coord, dtype=float)\n    coord += timestep * ratefxn(coord, **kwargs)\n    return coord", 'PURE-STEP')
+benign('C20', 'intermediate path built with keyword arguments', ISM, "        intpath = ISMPath(icoord, self.energyfxn, self.gradientfxn,\n                          self.gradientkwargs)", "        intpath = ISMPath(icoord, self.energyfxn, gradientfxn=self.gradientfxn,\n                          gradientkwargs=self.gradientkwargs)")
+mutant('C20', 'intermediate path drops the gradient settings', ISM, "        intpath = ISMPath(icoord, self.energyfxn, self.gradientfxn,\n                          self.gradientkwargs)", "        intpath = ISMPath(icoord, self.energyfxn)", 'STRING-STEP')
+mutant('C02', 'wrapper caches the cell vectors per box object', DM, "    bvects = box.vects\n", "    global _lastbox, _lastv\n    try:\n        same = box is _lastbox\n    except NameError:\n        same = False\n    if not same:\n        _lastbox = box\n        _lastv = box.vects\n    bvects = _lastv\n", 'WRAPPER')
